@@ -122,8 +122,26 @@ def _mutate(v):
         v['x'] = 1
 
 
+_LIVE = []      # (event name, live returned object, canonical snapshot) of every un-mutated result handed out in this process
+
+
+def check_live():
+    """values returned earlier must still be what they were (a later call must not write into a list it handed out before)"""
+    for name, obj, snap in _LIVE:
+        if canon(obj) != snap:
+            return f'the value returned earlier by {name} was changed in place by a later call'
+    return None
+
+
 def run_event(ev):
     """ev = (name, function path, args, mutate?) -> (canonical result, problem or None)"""
+    res, prob = _run_event(ev)
+    if prob is None:
+        prob = check_live()
+    return res, prob
+
+
+def _run_event(ev):
     name, fname, args, mutate = ev
     fn = _resolve(fname)
     mine = copy.deepcopy(args)
@@ -135,6 +153,8 @@ def run_event(ev):
     cres = canon(res)
     if canon(mine) != before:
         return ('ok', cres), 'arguments were modified by the call'
+    if not mutate and isinstance(res, (list, dict)):
+        _LIVE.append((name, res, cres))
     if mutate:
         _mutate(res)
         mine2 = copy.deepcopy(args)
